@@ -383,6 +383,44 @@ func (g *Signer) atomSign(id AtomID, strict bool) bool {
 		}
 		g.assumed[id] = true
 		defer delete(g.assumed, id)
+		// counters of the same loop moving in lock step differ by a constant: p = q + (p0 - q0);
+		// what is known about q (typically the loop's guard) then bounds p
+		if pfc.isHeaderPhi(p) && isIntType(p.Type()) {
+			if pi, pn := recurrenceOrNil(pfc, self); pi != nil {
+				if d, isC := pn.Sub(self).IsConst(); isC && d.Sign() != 0 {
+					for _, in := range p.Block().Instrs {
+						q, ok := in.(*ssa.Phi)
+						if !ok {
+							break
+						}
+						if q == p || !isIntType(q.Type()) {
+							continue
+						}
+						qv := pfc.Val(q)
+						qa := qv.SingleAtom()
+						if qa == nil || g.X.phiOf[qa.ID] != q || g.assumed[qa.ID] || g.Used[fmt.Sprintf("@lockstep:%d", qa.ID)] {
+							continue
+						}
+						qi, qn := recurrenceOrNil(pfc, qv)
+						if qi == nil {
+							continue
+						}
+						if d2, isC2 := qn.Sub(qv).IsConst(); !isC2 || d2.Cmp(d) != 0 {
+							continue
+						}
+						// (q itself is not in turn derived from p: a recursion guard, not an assumption)
+						lk := fmt.Sprintf("@lockstep:%d", id)
+						g.Used[lk] = true
+						ok2 := g.sign(qv.Add(pi.Sub(qi)), strict)
+						delete(g.Used, lk)
+						if ok2 {
+							g.Used["lock-step loop counters differ by a constant"] = true
+							return true
+						}
+					}
+				}
+			}
+		}
 		vals, preds := pfc.Ctx.PhiLiveEdges(p)
 		for i, v := range vals {
 			h := pfc.SignerAt(preds[i].Instrs[len(preds[i].Instrs)-1])
@@ -400,6 +438,15 @@ func (g *Signer) atomSign(id AtomID, strict bool) bool {
 		return true
 	}
 	return false
+}
+
+func recurrenceOrNil(fc *FC, v *RF) (init, next *RF) {
+	defer func() {
+		if recover() != nil {
+			init, next = nil, nil
+		}
+	}()
+	return fc.Recurrence(v)
 }
 
 // ---- D-floor ----
